@@ -1,10 +1,62 @@
 import Martian.Util
-/-! STUB — property C17 is not built yet. -/
+import Martian.Model.HarLog
+/-! Driver for C17: runs the pointer-level model (`HarLog.step`) and, beside it, the abstract
+    list specification; a difference between the two (excluded by `Props.C17.heap_refines_spec`)
+    would be printed as `levels-differ`. -/
 namespace Martian.Drv.C17
-open Martian
+open Martian Martian.HarLog
 
-abbrev St := Unit
-def init : St := ()
-def step (s : St) (_toks : List String) : St × String := (s, "bad-op")
+def showEnt (e : Ent) : String :=
+  e.id ++ ":" ++ toString e.rq ++ (match e.rs with | some t => "+" ++ toString t | none => "-")
+
+def showObs : Obs → String
+  | .ok => "ok"
+  | .dup => "err dup"
+  | .log es => if es.isEmpty then "log -" else "log " ++ ",".intercalate (es.map showEnt)
+  | .panic => "panic"
+  | .diverge => "diverge"
+
+structure St where
+  h : Heap
+  l : Log
+  t : Nat
+
+def init : St := ⟨HarLog.init, [], 0⟩
+
+def parseOp : List String → Option Op
+  | ["req", id] => some (.req id)
+  | ["res", id] => some (.res id)
+  | ["export"] => some .exp
+  | ["xreset"] => some .xreset
+  | ["reset"] => some .reset
+  | _ => none
+
+def doOp (s : St) (o : Op) : St × String :=
+  let (h', ob) := HarLog.step s.h s.t o
+  let (l', ob') := Spec.step s.l s.t o
+  (⟨h', l', s.t + 1⟩, if ob = ob' then showObs ob else "levels-differ " ++ showObs ob ++ " / " ++ showObs ob')
+
+/-- compact op alphabet of `seq`: a b c = request, A B C = response, e x r. -/
+def charOp (c : Char) : Option Op :=
+  if c = 'e' then some .exp else if c = 'x' then some .xreset else if c = 'r' then some .reset
+  else if c.isLower then some (.req (String.singleton c))
+  else if c.isUpper then some (.res (String.singleton c.toLower))
+  else none
+
+def seqOp (w : String) : String :=
+  match w.toList.mapM charOp with
+  | none => "bad-op"
+  | some ops =>
+    let (_, outs) := ops.foldl (fun (acc : St × List String) o =>
+      let (s', line) := doOp acc.1 o
+      (s', line :: acc.2)) (init, [])
+    "|".intercalate outs.reverse
+
+def step (s : St) (toks : List String) : St × String :=
+  match toks with
+  | ["seq", w] => (s, seqOp w)
+  | _ => match parseOp toks with
+    | some o => doOp s o
+    | none => (s, "bad-op")
 
 end Martian.Drv.C17
